@@ -95,6 +95,9 @@ func init() {
 			o := rows[i%len(rows)]
 			if c.Thorough && i >= 2*len(rows) {
 				o = genWOpts(r)
+				if o.maxCid < 36 {
+					o.maxCid = 36 // the continuation block's CID (36 bytes) must be acceptable
+				}
 			}
 			s := c06Sess{kind: uint64((i/len(rows) + i) % 2), o: o, fin: !(i%5 == 4)}
 			nb := 2 + r.Intn(2)
